@@ -1,6 +1,6 @@
 """Program-level correspondence: generated core-language programs run on the real VM, the real WASM runtime and the
 Lean reference evaluator (drv_prog). Shared by C01, C02, C03, C05, C06, C16 …"""
-import json, os, subprocess, sys, collections
+import json, subprocess, os, subprocess, sys, collections
 sys.path.insert(0, os.path.join(os.path.dirname(os.path.abspath(__file__)), "gen"))
 import coregen
 from vlib import *
@@ -49,7 +49,26 @@ def run_batch(cases, backends="vm,wasm", want_model=True, nshards=None, want_mir
             # the harness process died (abort / segfault / stack overflow) or hung on the first case without an answer:
             # record it and go on with the rest of the shard in a fresh process
             crasher = missing[0]
-            died = died or "harness-died rc=%s %s" % (p.returncode, p.stderr[-200:].replace("\n", " ").replace("\t", " "))
+            if died is not None:
+                # the WHOLE shard ran out of time (the machine may simply be loaded): the first case without an answer is only
+                # a suspect — it is a hang only if it does not answer ALONE within the same limit
+                one = json.dumps({"id": crasher["id"], "src": crasher["src"], "times": crasher["times"], "inputs": crasher["inputs"],
+                                  "scheduler": crasher.get("scheduler", False), "backends": backends,
+                                  **({"path": crasher["path"]} if crasher.get("path") else {})}) + "\n"
+                try:
+                    q = run([os.path.join(BIN, "runprog")], input=one, timeout=timeout)
+                    for l in q.stdout.splitlines():
+                        f = l.split("\t")
+                        if len(f) >= 3:
+                            res[f[0]] = [f[1], f[2], None]
+                    if crasher["id"] not in res:
+                        d2 = "harness-died rc=%s %s" % (q.returncode, q.stderr[-200:].replace("\n", " ").replace("\t", " "))
+                        res[crasher["id"]] = [d2, d2, None]
+                except subprocess.TimeoutExpired:
+                    res[crasher["id"]] = [died, died, None]
+                todo = missing[1:]
+                continue
+            died = "harness-died rc=%s %s" % (p.returncode, p.stderr[-200:].replace("\n", " ").replace("\t", " "))
             res[crasher["id"]] = [died, died, None]
             todo = missing[1:]
         if want_mir:
